@@ -213,7 +213,10 @@ class FArr:
         return FArr(self.length, g, "f4" if self.dt != "f8" else "f8", self.name)
 
     def __itruediv__(self, o):
-        self.divisors = getattr(self, "divisors", []) + [term(o)]
+        if isinstance(o, FArr):
+            self.div_by = o
+        else:
+            self.divisors = getattr(self, "divisors", []) + [term(o)]
         return self._binop(o, lambda x, y: x / y, True)
 
     def __truediv__(self, o):
